@@ -103,6 +103,31 @@ def stepC03 (dflt : Int) (d : Nat) (st : PState d) (op : Json) (obs : Json) : Ex
             let spec' : PMap := st.spec.filter (fun e => (stripPrefix p e.1).isNone) ++ srcC.map (fun e => (p ++ e.1, e.2))
             pure (t', optTreeJson (d' + 1) p t' dflt, spec', Json.null)
       | 0, _ => throw "assignp at depth 0"
+    | "iaddsp" => do
+      -- `h = getPayloadRef(*p)` (a leaf fiber); `h += v`: `iterShapeRef` over the rank's extent (recorded by the
+      -- harness before the call), every coordinate referenced (created if absent) and incremented
+      let v ← fInt op "v"
+      let n ← fNat op "shape"
+      let cs : List Int := (List.range n).map Int.ofNat
+      let t' := cs.foldl (fun t c => updateAt (fun x => x + v) d (refAt dflt d t (p ++ [c])) (p ++ [c])) (refAt dflt d st.tree p)
+      let spec' : PMap := cs.foldl (fun m c => m.set (p ++ [c]) (m.get dflt (p ++ [c]) + v)) st.spec
+      pure (t', optTreeJson d p t' dflt, spec', Json.null)
+    | "iaddfp" =>
+      -- `h += g` for a leaf fiber `g`: the populate loop `h << g` with `ref += val` as its body (Mutate.populate)
+      match d, st.tree with
+      | d' + 1, tr =>
+        match field op "f" with
+        | .error e => throw e
+        | .ok gJ =>
+          let t1 := refAt dflt (d' + 1) tr p
+          let g : TreeArg Int := { get := fun k => (parseTree k gJ).toOption }
+          let t' := (mstep dflt d' t1 (.populate p g (fun _ cur av => cur + av) (fun _ => Inner.recurse))).1
+          match contentOfJson dflt 1 gJ with
+          | .error e => throw e
+          | .ok gC =>
+            let spec' : PMap := gC.foldl (fun m e => m.set (p ++ e.1) (m.get dflt (p ++ e.1) + e.2)) st.spec
+            pure (t', optTreeJson (d' + 1) p t' dflt, spec', Json.null)
+      | 0, _ => throw "iaddfp at depth 0"
     | "imulp" => do
       -- `h = getPayloadRef(*p); h *= v` at a partial point (the root for []): Point.updateUnder after refAt;
       -- the walk skips empty elements, i.e. leaves holding the default stay as they are
@@ -124,7 +149,7 @@ def stepC03 (dflt : Int) (d : Nat) (st : PState d) (op : Json) (obs : Json) : Ex
   let mut st' := { st with tree := mtree, spec := sspec, tags := if st.tags.contains k then st.tags else k :: st.tags }
   -- agreement: output and tree after the step
   if !(treeEq d mtree snap) then st' := fail st' false s!"tree after {k} {p} differs from model"
-  if k == "assignp" || k == "imulp" then
+  if k == "assignp" || k == "imulp" || k == "iaddsp" || k == "iaddfp" then
     if mout.compress != out.compress then st' := fail st' false s!"assignp {p}: model {mout.compress} impl {out.compress}"
   else if k == "getprefix" then
     if mout.compress != out.compress then st' := fail st' false s!"getprefix {p}: model {mout.compress} impl {out.compress}"
